@@ -67,7 +67,7 @@ def run(tier, seed, replay=None):
     dist = {'tolerance': {}, 'fuzz_factor': {}, 'prog_depth': {}, 'api_calls': {}}
     evals = 0
     nontriv = set()
-    corr_bad = None
+    corr_bad = C.Corr()
     samples = []
 
     # ------------------------------------------------------------------ A: knot tolerance in evaluation / continuity
@@ -158,8 +158,8 @@ def run(tier, seed, replay=None):
                 evals += 1
                 nontriv.add(C.case_hash([case0, tf, d, fr_]))
                 sc = max([1.0] + [abs(float(v)) for v in rows[i]])
-                if not all(C.close(Nt[i, j], rows[i][j], sc) for j in range(Nt.shape[1])) and corr_bad is None:
-                    corr_bad = dict(case0, what='L1: evaluate under knot_tolerance differs from model', t_hex=tf.hex(), d=d, from_right=fr_)
+                if not all(C.close(Nt[i, j], rows[i][j], sc) for j in range(Nt.shape[1])) and corr_bad.open():
+                    corr_bad += dict(case0, what='L1: evaluate under knot_tolerance differs from model', t_hex=tf.hex(), d=d, from_right=fr_)
                 if f < 1:
                     if not np.array_equal(Nt[i], Nk[i]):
                         V.failure(dict(case0, what='L2: parameter within %s*tol of a knot is not evaluated as that knot' % f, t_hex=tf.hex(), knot=str(x), d=d, from_right=fr_))
@@ -174,8 +174,8 @@ def run(tier, seed, replay=None):
                     has = tk.int()
                     mv = int(tk.word()) if has else float('inf')
                 iv, ik = res[i]
-                if iv != mv and not (iv == 'ValueError' and mv == 'ValueError') and corr_bad is None:
-                    corr_bad = dict(case0, what='L1: continuity(%r) = %r, model %r' % (tf, iv, mv))
+                if iv != mv and not (iv == 'ValueError' and mv == 'ValueError') and corr_bad.open():
+                    corr_bad += dict(case0, what='L1: continuity(%r) = %r, model %r' % (tf, iv, mv))
                 s_, e_ = O.domain(b)
                 if f < 1 and iv != 'ValueError' and s_ <= C.fr(tf) <= e_ and iv != ik:
                     V.failure(dict(case0, what='L2: continuity at a parameter within %s*tol of a knot (%r) differs from the knot\'s (%r)' % (f, iv, ik), t_hex=tf.hex(), knot=str(x)))
@@ -262,8 +262,8 @@ def run(tier, seed, replay=None):
         evals += 1
         mids = tk.list(tk.int)
         nontriv.add(C.case_hash([atol, rtol, pts]))
-        if mids != ids and corr_bad is None:
-            corr_bad = {'what': 'L1: VertexDict identification differs from model', 'atol': atol, 'rtol': rtol, 'points': pts, 'impl': ids, 'model': mids}
+        if mids != ids and corr_bad.open():
+            corr_bad += {'what': 'L1: VertexDict identification differs from model', 'atol': atol, 'rtol': rtol, 'points': pts, 'impl': ids, 'model': mids}
     # configured tolerances reach the model catalogue: two segments sharing an end point up to a perturbation
     for tolf in [1e-10, 1e-6, 1e-3]:
         for fac, same in ((0.5, True), (4.0, False)):
@@ -346,8 +346,8 @@ def run(tier, seed, replay=None):
         nontriv.add(C.case_hash(prog_tokens(p)))
         mv = tk.qlist()
         mok = bool(tk.int())
-        if ([C.fr(x) for x in final] != mv or normal != mok) and corr_bad is None:
-            corr_bad = {'what': 'L1: settings after the program differ from the model', 'program': prog_tokens(p), 'impl': final, 'model': [float(x) for x in mv],
+        if ([C.fr(x) for x in final] != mv or normal != mok) and corr_bad.open():
+            corr_bad += {'what': 'L1: settings after the program differ from the model', 'program': prog_tokens(p), 'impl': final, 'model': [float(x) for x in mv],
                         'impl_normal_exit': normal, 'model_normal_exit': mok}
         for l in leaks:
             V.failure({'what': 'L2: ' + l, 'program': prog_tokens(p)})
@@ -392,7 +392,7 @@ def run(tier, seed, replay=None):
             V.failure({'what': 'L2: library call %s changed global settings' % name, 'before': before, 'after': after})
             for k, v in before.items():
                 setattr(state, k, v)
-    rc = V.finish(l0, corr_bad if not V.fail else None)
+    rc = V.finish(l0, corr_bad)
     C.write_evidence(PID, tier, seed, l0, {
         'evaluations': evals, 'distinct_nontrivial': len(nontriv),
         'rule': 'knot tolerances 1e-14..1e-2: parameters at knot +- {1/4,1/2,3/4,3/2,4} tol (values, first derivatives, both sides, continuity, fuzz beyond domain ends); '
